@@ -166,7 +166,8 @@ fn brute(t: &RelationWithRewritingRules) -> Vec<(Property, f64)> {
 fn audit(rel: &Relation, noise_above: bool, reduce_below_noise: bool, path: &mut Vec<String>, bad: &mut Vec<String>) {
     match rel {
         Relation::Table(t) => {
-            let name = t.name().to_string();
+            // what the rendered SQL reads is the table's path, whatever the node is called
+            let name = t.path().last().map(|x| x.to_string()).unwrap_or_else(|_| t.name().to_string());
             if PROTECTED.contains(&name.as_str()) && !(noise_above && reduce_below_noise) {
                 bad.push(format!("protected table `{name}` reached through [{}] without a noisy aggregation in between", path.join(" > ")));
             }
@@ -301,4 +302,37 @@ pub fn dump_rules() -> J {
     } }
     let _ = Expr::val(1);
     json!({"rules": table})
+}
+
+// ------------------------------------------------------------------------------------------------
+// stream `sdpartial`: a synthetic-data mapping that omits one protected table. Whatever the compiler answers (error, or a rewritten
+// relation), a result labelled without any DP mechanism must not read a protected table.
+
+pub fn gen_sdpartial(rng: &mut Rng, _k: usize, _tier: &str) -> J {
+    let sql = *rng.pick(&["SELECT user_id AS u, amount AS a FROM orders", "SELECT id AS i, age AS a FROM users WHERE age > 30", "SELECT max(amount) AS m FROM orders",
+                          "SELECT users.age AS a, orders.amount AS b FROM users JOIN orders ON users.id = orders.user_id", "SELECT sum(amount) AS s FROM orders", "SELECT price AS p FROM items",
+                          "SELECT count(*) AS n FROM users", "SELECT city AS c, count(id) AS n FROM users GROUP BY city"]);
+    json!({"sql": sql, "omit": *rng.pick(&["orders", "users", "items"])})
+}
+
+pub fn eval_sdpartial(case: &J) -> Outcome {
+    let mut out = Outcome::new();
+    let sql = case["sql"].as_str().unwrap();
+    let omit = case["omit"].as_str().unwrap();
+    let rels = world();
+    let relation = match guarded(|| { let q = parse(sql).map_err(|e| e.to_string())?; Relation::try_from(QueryWithRelations::new(&q, &rels)).map_err(|e| e.to_string()) }) { Ok(Ok(r)) => r, _ => { out.tag("trivial"); return out; } };
+    let mapping: Vec<(Vec<&str>, Identifier)> = [("users", "users_sd"), ("orders", "orders_sd"), ("products", "products_sd"), ("items", "items_sd")].iter().filter(|(t, _)| *t != omit).map(|(t, sd)| (vec![*t], Identifier::from(*sd))).collect();
+    let synth = SyntheticData::new(Hierarchy::from_iter(mapping));
+    out.tag(&format!("omit={omit}"));
+    match guarded(|| relation.rewrite_with_differential_privacy(&rels, Some(synth.clone()), privacy_unit(), DpParameters::from_epsilon_delta(1.0, 1e-5))) {
+        Err((loc, msg)) => { out.tag("panic"); out.fail(&format!("C18/sdpartial/rewrite-panic/{}", site(&loc, &msg)), format!("{sql} with a synthetic-data mapping that omits `{omit}`: {msg}")); }
+        Ok(Err(_)) => { out.tag("refused"); }
+        Ok(Ok(rw)) => {
+            out.tag("rewritten");
+            let mut bad = vec![];
+            audit(rw.relation(), false, false, &mut vec![], &mut bad);
+            for b in bad { out.fail("C02/sdpartial/unnoised-path", format!("{sql} with a synthetic-data mapping that omits `{omit}`: in the relation returned by rewrite_with_differential_privacy, {b}")); }
+        }
+    }
+    out
 }
